@@ -145,6 +145,49 @@ func readerLies(rs syncer.ReadSyncer, root node.Root, truth kv.Contents, nodeCap
 	return ""
 }
 
+// readerLiesWarm: a reader whose cache was warmed by a Get of one key then iterates from a seek
+// position (the cache state at the start of the iteration matters when it is small).
+func readerLiesWarm(rs syncer.ReadSyncer, root node.Root, truth kv.Contents, nodeCap uint64) (lie string) {
+	defer func() {
+		if p := recover(); p != nil {
+			lie = fmt.Sprintf("panic in remote-backed reader: %v", p)
+		}
+	}()
+	seeks := [][]byte{{0x00, 0x00}, {0x00, 0x81}, {0x7f}, {0x80}, {0x80, 0x01}}
+	for _, g := range c04Probes {
+		for _, seek := range seeks {
+			rd := mkvs.NewWithRoot(rs, nil, root, mkvs.Capacity(nodeCap, 0))
+			if v, err := rd.Get(kv.Ctx, g); err == nil {
+				want, present := truth[string(g)]
+				if !valEq(v, want, present) {
+					rd.Close()
+					return fmt.Sprintf("reader Get(%x) = %q (nil=%v) but the tree holds %q (present=%v)", g, v, v == nil, want, present)
+				}
+			}
+			it := rd.NewIterator(kv.Ctx)
+			it.Seek(seek)
+			want := sortedFrom(truth, seek)
+			i := 0
+			for ; it.Valid(); it.Next() {
+				if i >= len(want) || string(it.Key()) != want[i] || !bytes.Equal(it.Value(), truth[want[i]]) {
+					lie = fmt.Sprintf("after Get(%x), reader iteration from %x yields %x=%q at position %d contrary to the tree", g, seek, it.Key(), it.Value(), i)
+					break
+				}
+				i++
+			}
+			if lie == "" && it.Err() == nil && i != len(want) {
+				lie = fmt.Sprintf("after Get(%x), reader iteration from %x ended without error after %d items, the tree has %d", g, seek, i, len(want))
+			}
+			it.Close()
+			rd.Close()
+			if lie != "" {
+				return lie
+			}
+		}
+	}
+	return ""
+}
+
 // subtreeClaim walks a verified subtree (as returned by VerifyProof) with an
 // independent lookup and reports what it claims about key: a value, absence,
 // or unknown (an unresolved hash pointer).
@@ -592,6 +635,18 @@ func c04MakeTree(ndb dbapi.NodeDB, c kv.Contents) (*c04tree, error) {
 func c04CheckTree(r *ev.Run, tr *c04tree, neighbours []*c04tree, reqs []c04req, bitLevel bool) {
 	var pv syncer.ProofVerifier
 	var evals, mutants, accepted int64
+	// An honest peer (the tree itself) read through small node caches: gets, iteration from several
+	// seek positions.  A cache that is too small may make a read fail, never lie.
+	for _, nc := range []uint64{1, 2, 3} {
+		evals++
+		lie := readerLies(tr.t, tr.root, tr.c, nc)
+		if lie == "" {
+			lie = readerLiesWarm(tr.t, tr.root, tr.c, nc)
+		}
+		if lie != "" {
+			r.Violate(ev.Violation{Engine: "kvmc", Key: fmt.Sprintf("c04 small-cache %s cap=%d", tr.c, nc), What: fmt.Sprintf("tree %s read from an honest peer through a node cache of %d: %s", tr.c, nc, lie), Artefact: c04Artefact{Contents: tr.c, NodeCap: nc, Mutation: "small-cache"}})
+		}
+	}
 	// splice universe: all distinct entries of the get-proofs of the neighbours and of this tree
 	uniSet := map[string]struct{}{}
 	var universe [][]byte
@@ -876,6 +931,10 @@ func c04Replay(r *ev.Run) {
 	tr, _ := c04MakeTree(ndb, a.Contents)
 	what := ""
 	switch {
+	case a.Mutation == "small-cache":
+		if what = readerLies(tr.t, tr.root, tr.c, a.NodeCap); what == "" {
+			what = readerLiesWarm(tr.t, tr.root, tr.c, a.NodeCap)
+		}
 	case a.Mutation == "adversary":
 		ot, _ := c04MakeTree(ndb, a.Other)
 		what, _ = tapeReaderLies(&tapeSyncer{src: tr.t, root: tr.root, other: ot.t, oroot: ot.root, tape: a.Tape}, tr.c, a.NodeCap)
